@@ -60,6 +60,7 @@ func VerifC12_ShippedSignersAndValidators() {
 		if verifSymbolic() {
 			s = &eccSigner{timer: basic_engine.Timer{}, keyLocatorName: keyName, keyLen: 72, forCert: forCert, certExpireTime: time.Hour}
 			v = verifBytesN("sigvalue", 8)
+			pub = &ecdsa.PublicKey{} // a key object is present; its arithmetic is behind the stub
 		} else {
 			k, _ := ecdsa.GenerateKey(elliptic.P256(), rand.Reader)
 			s = NewEccSigner(forCert, false, time.Hour, k, keyName)
@@ -77,6 +78,7 @@ func VerifC12_ShippedSignersAndValidators() {
 		if verifSymbolic() {
 			s = &rsaSigner{timer: basic_engine.Timer{}, keyLocatorName: keyName, keyLen: 128, forCert: forCert, certExpireTime: time.Hour}
 			v = verifBytesN("sigvalue", 8)
+			pub = &rsa.PublicKey{}
 		} else {
 			k, _ := rsa.GenerateKey(rand.Reader, 1024)
 			s = NewRsaSigner(forCert, false, time.Hour, k, keyName)
